@@ -643,6 +643,11 @@ class Engine:
             r = self._resolve_trait_const(fr, k)
             if r is not None:
                 k = dict(k, **r)
+            else:
+                # a const generic parameter of the inlined function: the value this call path instantiates it with
+                cv = fr.sub.get("const " + str(k["uneval"]))
+                if isinstance(cv, int) and not isinstance(cv, bool):
+                    k = dict(k, int=str(cv))
         if "int" in k:
             if kind == "bool":
                 return TRUE if int(k["int"]) else FALSE
@@ -1052,7 +1057,12 @@ class Engine:
             order, lo = "BE", offs[-1]
         else:
             return None
-        return "rd[%s@%s:%d:%s]" % (base, lo, n, order)
+        name = "rd[%s@%s:%d:%s]" % (base, lo, n, order)
+        # registered like the reads the nom / byteorder contracts name (base, offset, width, order)
+        one = self.rd_syms.get("rd[%s@%s:1:1]" % (base, lo))
+        if one is not None:
+            self.rd_syms.setdefault(name, (one[0], one[1], n, order))
+        return name
 
     # ------------------------------------------------------------------ binary / unary
     def eval_bin(self, fr, st, op, a, b, rv):
